@@ -168,6 +168,25 @@ def programs(tier: str):
                                 b["child"] = blk
                             blk = b
                         yield {"block": blk, "outer": False, "cancels": cancels, "chain": depth}
+    # WIDE contexts: the surrounding block carries 9 .. 12 distinct state types, the nested block
+    # supplies one / three of them again (or another type): after it is left - by return, exception,
+    # cancellation - every one of the surrounding block's instances is back
+    from hv.ctxkit import WIDE
+
+    for width in (9, 10, 12):
+        for inner_sup in (["W3"], ["W0", "W8", "A"], ["A"], WIDE[:width]):
+            for hk in ("ascope", "sscope", "updated"):
+                for ik in ("ascope", "sscope", "updated"):
+                    for ending, cancels in (("return", 0), ("raise", 0), ("return", 1)):
+                        if cancels and (hk != "ascope" or width != 9):
+                            continue
+                        inner_b = {"kind": ik, "supply": list(inner_sup), "pause": True, "ending": ending}
+                        yield {
+                            "block": {"kind": hk, "supply": [*WIDE[:width], "A"], "pause": True, "ending": "return", "child": inner_b},
+                            "outer": False,
+                            "cancels": cancels,
+                            "probe_types": ["A", "R", *WIDE[:width]],
+                        }
     if tier == "thorough":
         basic = [
             {"kind": k, "supply": ["A"], "pause": True, "ending": e}
